@@ -340,9 +340,9 @@ static spif_obj_t make_url(void)
 }
 static spif_obj_t make_regexp(void)
 {
-    static const char *P[] = { "a.c", "^abc$", "[A-Z]+", "x|y", "a", "(a)(b)?c", "(unclosed", "" };      /* the last two: a pattern that does not compile, an empty one -- objects all the same */
+    static const char *P[] = { "a.c", "^abc$", "[A-Z]+", "x|y", "a", "(a)(b)?c", "(unclosed", "", "^ABC$", "A.C" };      /* the last two: a pattern that does not compile, an empty one -- objects all the same */
     int v = (int) vh_below(4);
-    const char *pat = P[vh_below(8)];
+    const char *pat = P[vh_below(10)];      /* incl. patterns that differ from another one only in letter case */
     spif_regexp_t r;
     if (v == 0) { spif_str_t s = spif_str_new_from_ptr((spif_charptr_t) pat); r = spif_regexp_new_from_str(s); spif_str_del(s); vh_op("regexp_new_from_str(%s)", vh_qs(pat)); }
     else { r = spif_regexp_new_from_ptr((spif_charptr_t) pat); vh_op("regexp_new_from_ptr(%s) variant %d", vh_qs(pat), v); }
@@ -374,6 +374,13 @@ static spif_obj_t make_container(int k, int depth)
         vh_op("%s_new shape %d", KNAME[k], shape);
         if (shape == 0) return c;
         int n = shape == 1 ? 1 : (int) vh_range(2, 6);
+        if (!no_nest && shape == 4) {
+            /* elements that compare EQUAL (pairs compare by their key) and still differ: their order is part of the value */
+            vh_op("  vector of pairs with one key and different values");
+            for (int i = 0; i < n; i++) { char vb[8]; snprintf(vb, sizeof vb, "v%d", i); SPIF_VECTOR_INSERT((spif_vector_t) c, (spif_obj_t) spif_objpair_new_from_both((spif_obj_t) spif_str_new_from_ptr((spif_charptr_t) "samekey"), (spif_obj_t) spif_str_new_from_ptr((spif_charptr_t) vb))); }
+            vh_count("vectors_of_equal_but_different_elements", 1);
+            return c;
+        }
         for (int i = 0; i < n; i++) SPIF_VECTOR_INSERT((spif_vector_t) c, mk_label());
         if (vh_coin(25)) { spif_obj_t probe = mk_label(); spif_obj_t r = SPIF_VECTOR_REMOVE((spif_vector_t) c, probe); if (r) SPIF_OBJ_DEL(r); SPIF_OBJ_DEL(probe); }
     } else {
